@@ -386,7 +386,20 @@ func (s *S) Check(c *scen.Ctx, res *simrt.Result) {
 				// ones the client had and dropped.
 				if at, ok := s.replyAt[cl.wireID]; ok && cl.seenOnWire && res.Stalls == 0 && !(s.registry && s.dropped != "") &&
 					at+160*time.Millisecond < cl.t0+time.Duration(s.timeoutMs)*time.Millisecond {
-					c.Fail("C08", "response-dropped", "TarsInvoke", "call %d/%d (id %d, started at %v) ended in a time-out after %v although the peer wrote its response at %v (plan %q) and no goroutine was stalled: %v", cl.caller, cl.k, cl.wireID, cl.t0, cl.t1-cl.t0, at, s.plans[cl.wireID], cl.err)
+					// where did the response go? If the client itself closed the connection that carried the
+					// request while the call was waiting (its idle check), that is a cause of its own
+					key, extra := "TarsInvoke", ""
+					for _, r := range byPayload[string(cl.payload)] {
+						for _, pr := range simnet.Pairs() {
+							if pr.ID == r.Conn && pr.Client.ClosedAt >= cl.t0 && pr.Client.ClosedAt <= cl.t1 {
+								if ended, _, _ := pr.S2C.Ended(); !ended || pr.S2C.EndTime > pr.Client.ClosedAt {
+									key = "client-closed-connection-under-pending-call"
+									extra = fmt.Sprintf("; the client closed %s itself at %v with the call pending", pr, pr.Client.ClosedAt)
+								}
+							}
+						}
+					}
+					c.Fail("C08", "response-dropped", key, "call %d/%d (id %d, started at %v) ended in a time-out after %v although the peer wrote its response at %v (plan %q) and no goroutine was stalled: %v%s", cl.caller, cl.k, cl.wireID, cl.t0, cl.t1-cl.t0, at, s.plans[cl.wireID], cl.err, extra)
 				}
 			}
 			continue
